@@ -99,6 +99,64 @@ def _replay_fmt(engine, shape, qshape, k, fmt):
     return replay
 
 
+# ------------------------------------------------------------------ (a'') output formats with a real-valued custom distance
+def _body_fmt_custom(engine, shape, k, fmt):
+    def body():
+        import pyrepseq
+        from vlib import sym, symops as so
+        from models.np_model import NDArray
+        from models import sp_model
+        L = _letters(engine)
+        seqs = [sym.sym_str(f"s{i}", n, among=L) for i, n in enumerate(shape)]
+        cd = hc.ArbitraryDistance(seqs)
+        got = getattr(pyrepseq, engine)(seqs, max_edits=k, custom_distance=cd, output_type=fmt)
+        if fmt == "coo_matrix":
+            if not isinstance(got, sp_model.coo_matrix):
+                return False, f"coo_matrix output is {type(got).__name__}"
+            got = got.toarray()
+        if not isinstance(got, NDArray) or got.shape != (len(seqs), len(seqs)):
+            return False, f"output {type(got).__name__} shape {getattr(got, 'shape', None)}"
+        conds = []
+        for r in range(len(seqs)):
+            for q in range(len(seqs)):
+                cell = got[r, q]
+                if r == q:
+                    conds.append(so.eq(cell, 0))
+                else:
+                    conds.append(so.eq(cell, so.ite(so.le(hc.lev_term(seqs[q], seqs[r]), k), cd.value(q, r), 0)))
+        return so.b_and(*conds), (lambda: f"{engine}(custom, output_type={fmt!r}) returned {_realize(got.tolist())}")
+    return body
+
+
+def _replay_fmt_custom(engine, shape, k, fmt):
+    def replay(inputs):
+        import numpy as np
+        import scipy.sparse
+        import pyrepseq
+        from fractions import Fraction
+        seqs = [inputs[f"s{i}"] for i in range(len(shape))]
+        table = {}
+        for i in range(len(seqs)):
+            for j in range(i + 1, len(seqs)):
+                v = inputs[f"cd_{i}_{j}"]
+                v = float(Fraction(v["frac"][0], v["frac"][1])) if isinstance(v, dict) else float(v)
+                table[(seqs[i], seqs[j])] = table[(seqs[j], seqs[i])] = v
+        cd = lambda a, b: 0.0 if a == b else table[(a, b)]
+        got = getattr(pyrepseq, engine)(list(seqs), max_edits=k, custom_distance=cd, output_type=fmt)
+        if fmt == "coo_matrix":
+            if not scipy.sparse.issparse(got):
+                return False, "not sparse"
+            got = got.toarray()
+        want = np.zeros((len(seqs), len(seqs)))
+        for q, a in enumerate(seqs):
+            for r, b in enumerate(seqs):
+                if q != r and hc.lev(a, b) <= k:
+                    want[r, q] = cd(a, b)
+        ok = isinstance(got, np.ndarray) and got.shape == want.shape and bool(np.allclose(got, want, atol=1e-12, rtol=0))
+        return ok, f"{engine}({seqs!r}, max_edits={k}, custom_distance=<table {table}>, output_type={fmt!r}): got {np.asarray(got).tolist()} want {want.tolist()}"
+    return replay
+
+
 # ------------------------------------------------------------------ (b) containers
 def _body_container(engine, shape, k, container):
     def body():
@@ -250,6 +308,11 @@ def conditions(tier):
                     out.append(Condition(f"C10/fmt/{engine}/{fmt}/ref={_sh(rs)}/qry={_sh(qs)}/k=1", _body_fmt(engine, rs, qs, 1, fmt),
                                          _replay_fmt(engine, rs, qs, 1, fmt), budget=200, models=MODELS,
                                          bounds=f"{engine} two-collection output_type={fmt}, refs {rs}, queries {qs}"))
+    for engine in ("symdel", "kdtree", "hash_based"):
+        for fmt in ("coo_matrix", "ndarray"):
+            out.append(Condition(f"C10/fmt-custom/{engine}/{fmt}/len=2,1/k=1", _body_fmt_custom(engine, (2, 1), 1, fmt),
+                                 _replay_fmt_custom(engine, (2, 1), 1, fmt), budget=200, models=MODELS, setup=_setup(engine),
+                                 bounds=f"{engine} output_type={fmt} with an arbitrary real-valued custom distance"))
     for engine in ("symdel", "hash_based", "kdtree", "nearest_neighbor"):
         for container in ("tuple", "array", "series_int", "series_str"):
             shapes = [(2, 1, 1)] if engine != "nearest_neighbor" else [(2, 1)]
